@@ -460,7 +460,7 @@ func (e *Engine) escapes(a *ssa.Alloc) bool {
 			case *ssa.MakeClosure:
 				// fine when the closure is only deferred or called in this function (possibly after
 				// being selected by a phi or parked in a local variable)
-				if !e.onlyCalled(u, map[ssa.Value]bool{}) {
+				if !e.onlyCalled(u, map[ssa.Value]bool{}) && !e.closureOnlyReads(u, x) {
 					return true
 				}
 			default:
@@ -472,6 +472,37 @@ func (e *Engine) escapes(a *ssa.Alloc) bool {
 	r := walk(a)
 	e.escCache[a] = r
 	return r
+}
+
+// closureOnlyReads: the function literal mc captures the variable cell but only ever loads it (and so do the
+// literals nested in it). Wherever the closure travels, nothing but code of this function can write the variable.
+func (e *Engine) closureOnlyReads(mc *ssa.MakeClosure, cell ssa.Value) bool {
+	cf, ok := mc.Fn.(*ssa.Function)
+	if !ok {
+		return false
+	}
+	for i, b := range mc.Bindings {
+		if b != cell {
+			continue
+		}
+		fv := cf.FreeVars[i]
+		refs := fv.Referrers()
+		if refs == nil {
+			continue
+		}
+		for _, u := range *refs {
+			switch x := u.(type) {
+			case *ssa.UnOp, *ssa.DebugRef:
+			case *ssa.MakeClosure:
+				if !e.closureOnlyReads(x, fv) {
+					return false
+				}
+			default:
+				return false
+			}
+		}
+	}
+	return true
 }
 
 // onlyCalled: the function value v is never passed on, stored in the heap or returned; it is only
@@ -1132,6 +1163,15 @@ func (e *Engine) contractTouchesGhost(fc *FuncContract) bool {
 }
 
 // resolveImmutables turns `immutable T.f` declarations into (type id, leaf) pairs.
+// resetIDs: fresh id tables for the next root (see verifyFunction).
+func (e *Engine) resetIDs() {
+	e.typeIDs, e.typeByID, e.objKind = map[string]int{}, map[int]types.Type{}, map[int]string{}
+	e.strIDs, e.funcIDs, e.globals = map[string]int{}, map[*ssa.Function]int{}, map[*ssa.Global]int{}
+	e.ifaces = map[string]types.Type{}
+	e.immutableLeaves = nil
+	e.resolveImmutables()
+}
+
 func (e *Engine) resolveImmutables() {
 	for _, im := range e.contracts.Immutables {
 		parts := strings.SplitN(im.Field, ".", 2)
